@@ -25,6 +25,25 @@ NA = {
 PENDING = "check not built yet in this round (planned: DESIGN.md section 5)"
 
 CHECKS = {
+    "C19": dict(
+        engine="E1 pack-to-storage",
+        category="fault_enumeration",
+        text="Per configuration (temp-dir mode x empty/non-empty outputs x atomic/progressive store x "
+             "refresh kw x default/short retry budget x previous dataset) a fault-free baseline fixes the "
+             "K fault points (every filesystem call, write and close). Every single fault (k, kind), kind "
+             "in {EIO, ENOENT, error-after-effect, torn write, ENOSPC, stale listing (late visibility / "
+             "late deletion), crash} is enumerated (quick: writes thinned to first/middle/last per file), "
+             "then repeated faults around the retry budget, then sampled pairs/triples and multi-worker "
+             "schedules. Oracle: completed => stored dataset equals the fault-free one; raised/crashed => "
+             "a fault-free repeat with overwrite=True on the surviving tree equals it. Virtual time lets "
+             "the library's default 24-attempt / 120 s back-off run unshortened.",
+        design_ref="DESIGN.md 5/C19, 2.4",
+        note="fault model is a modelling choice (DESIGN 2.4): only listings can be stale, point lookups "
+             "see the real state; file reads are not faulted; executor drains in-flight tasks on error; "
+             "trusted: pyarrow, pandas, dask graph construction, fsspec base, OS filesystem",
+        technique="deterministic simulation with exhaustive single-fault enumeration + sampled fault "
+                  "sequences, crash/restart, virtual time",
+    ),
     "C10": dict(
         engine="E1 pack-to-storage",
         category="exploration",
@@ -80,7 +99,7 @@ def main():
         },
         "engines": [
             {"name": "E1 pack-to-storage", "path": "dsim/e1.py",
-             "serves_properties": ["C10", "C19", "C18"],
+             "serves_properties": ["C10", "C19"],
              "kind_free_text": "real pack_partitions_to_parquet on SimFS under the simulated Dask executor"},
         ],
         "checks": checks,
